@@ -31,7 +31,7 @@ fn bases() -> &'static Vec<Base> {
     static B: OnceLock<Vec<Base>> = OnceLock::new();
     B.get_or_init(|| {
         let mut v = vec![];
-        let o = GdsGenOpts { oversize: false, distinct_fields: false, max_structs: 3, max_elems: 6, ..Default::default() };
+        let o = GdsGenOpts { oversize: false, large_records: false, distinct_fields: false, max_structs: 3, max_elems: 6, ..Default::default() };
         for (i, words) in engine::draw_vectors(engine::env_seed(), "c10-bases", N_GENERATED, 900).iter().enumerate() {
             let mut src = Src::new(words);
             let (m, _) = gen_lib(&mut src, &o);
